@@ -277,13 +277,30 @@ pub fn run(prop: &str, tier: &str, only: Option<&Value>) -> i32 {
         for c in &cases {
             rep.distinct.insert(util::fnv(&format!("{ps}{}", c.files["m.rs"])));
         }
-        let (diags, stats) = match check_cases(&cases, target, 400) {
+        let (mut diags, stats) = match check_cases(&cases, target, 400) {
             Ok(x) => x,
             Err(e) => {
                 rep.machinery(format!("{e:#}"));
                 return rep.finish();
             }
         };
+        // thorough: the 64-bit cases are also laid out by the x86_64-pc-windows-msvc rules
+        if tier == "thorough" && ps == 8 {
+            match check_cases(&cases, Target::X64Msvc, 400) {
+                Ok((d2, st2)) => {
+                    rep.count("rustc_invocations_x86_64_msvc", st2.rustc_invocations as u64);
+                    for (i, d) in d2.into_iter().enumerate() {
+                        if diags[i].is_empty() {
+                            diags[i] = d;
+                        }
+                    }
+                }
+                Err(e) => {
+                    rep.machinery(format!("{e:#}"));
+                    return rep.finish();
+                }
+            }
+        }
         rep.count("rustc_invocations", stats.rustc_invocations as u64);
         rep.count("ms_rustc", t0.elapsed().as_millis() as u64);
         rep.count("asserts_checked", labels.iter().map(|l| l.len() as u64).sum());
